@@ -15,13 +15,19 @@ from . import common, project
 from .common import REPO
 
 
+_CALLS = [0]
+
+
 def rules():
     from mathy_core.rules import (AssociativeSwapRule, BalancedMoveRule, CommutativeSwapRule, ConstantsSimplifyRule,
                                   DistributiveFactorOutRule, DistributiveMultiplyRule, MultiplicativeInverseRule,
                                   RestateSubtractionRule, VariableMultiplyRule)
-    return [("assoc", "", AssociativeSwapRule()), ("comm", "pref", CommutativeSwapRule()),
-            ("comm", "nopref", CommutativeSwapRule(preferred=False)), ("fold", "", ConstantsSimplifyRule()),
-            ("factor", "", DistributiveFactorOutRule()), ("factor", "consts", DistributiveFactorOutRule(constants=True)),
+    _CALLS[0] += 1
+    pos = _CALLS[0] % 2 == 0          # the documented options are given by keyword and positionally in turn
+    return [("assoc", "", AssociativeSwapRule()), ("comm", "pref", CommutativeSwapRule(True) if pos else CommutativeSwapRule()),
+            ("comm", "nopref", CommutativeSwapRule(False) if pos else CommutativeSwapRule(preferred=False)), ("fold", "", ConstantsSimplifyRule()),
+            ("factor", "", DistributiveFactorOutRule(False) if pos else DistributiveFactorOutRule()),
+            ("factor", "consts", DistributiveFactorOutRule(True) if pos else DistributiveFactorOutRule(constants=True)),
             ("dist", "", DistributiveMultiplyRule()), ("inverse", "", MultiplicativeInverseRule()),
             ("restate", "", RestateSubtractionRule()), ("varmul", "", VariableMultiplyRule()), ("move", "", BalancedMoveRule())]
 
@@ -83,6 +89,28 @@ def parse(text):
     return ExpressionParser().parse(text)
 
 
+_REPARSER = {}
+
+
+def reparse(printed):
+    """what a caller does with printed text: hands it to the parser it already has. That parser has seen plenty of other texts,
+    among them look-alikes of this one (blanks moved, case changed); a correct parser answers as a new one would."""
+    from mathy_core.parser import ExpressionParser
+    p = _REPARSER.get("p")
+    if p is None or _REPARSER["n"] > 3000:
+        p = _REPARSER["p"] = ExpressionParser()
+        _REPARSER["n"] = 0
+    _REPARSER["n"] += 1
+    if _REPARSER["n"] % 2:
+        for v in (" ".join(printed.replace(" ", "")), printed.replace(" ", ""), printed.upper(), printed.replace(" ", "  "), printed + " "):
+            if v != printed:
+                try:
+                    p.parse(v)
+                except BaseException:  # noqa
+                    pass
+    return p.parse(printed)
+
+
 def share_ids(tree):
     """give every subterm the ids of the first structurally equal subterm before it (what building it as first.clone() does)"""
     first = {}
@@ -111,8 +139,9 @@ def step_event(t0, name, opt, rule, k, text="", own_tree=False):
     src = t0 if own_tree else t0.clone()      # own_tree: the caller's very tree (with whatever bookkeeping earlier calls left on its nodes)
     nd = inorder(src)[k]
     # the realistic flow: ask on the tree, clone the node from the root, apply on the clone
+    kwcall = k % 2 == 1           # the documented parameter name is used every other time (rule.apply_to(node=...))
     try:
-        if not rule.can_apply_to(nd):
+        if not (rule.can_apply_to(node=nd) if kwcall else rule.can_apply_to(nd)):
             return None, None
     except BaseException:  # noqa  (reported by the probe event)
         return None, None
@@ -125,7 +154,7 @@ def step_event(t0, name, opt, rule, k, text="", own_tree=False):
           "node": objs.of(work), "res": 0, "printed": "", "reparse": "-", "re": {"k": "c", "n": 0, "d": 1}}
     result_root = None
     try:
-        change = rule.apply_to(work)
+        change = rule.apply_to(node=work) if kwcall else rule.apply_to(work)
         res = change.result
         if res is None or not hasattr(res, "get_root"):
             ev["outcome"] = "ok"
@@ -155,7 +184,7 @@ def step_event(t0, name, opt, rule, k, text="", own_tree=False):
         printed = str(result_root)
         ev["printed"] = printed
         try:
-            rp = parse(printed)
+            rp = reparse(printed)
             ev["reparse"] = "ok"
             ev["re"] = project.term(rp)
         except BaseException as e:  # noqa
@@ -197,8 +226,24 @@ def probe_event(t0, name, opt, rule, text=""):
     except BaseException as e:  # noqa
         exc = exc or type(e).__name__
         first = -1
+    # the same searches started at inner nodes: they report exactly the applicable nodes of that subtree (a contiguous in-order range)
+    subs = []
+    if len(nodes) <= 25:
+        for si, sn in enumerate(nodes):
+            if sn is tree or (sn.left is None and sn.right is None and si % 3):
+                continue
+            inside = inorder(sn)
+            lo = pos[id(inside[0])]
+            try:
+                f = [pos.get(id(n), -1) for n in (rule.find_nodes(expression=sn) if si % 2 else rule.find_nodes(sn))]
+                fn = rule.find_node(expression=sn) if si % 2 else rule.find_node(sn)
+                f1 = 0 if fn is None else pos.get(id(fn), -1)
+            except BaseException as e:  # noqa
+                exc = exc or type(e).__name__
+                f, f1 = [-1], -1
+            subs.append({"lo": lo, "hi": lo + len(inside) - 1, "found": f, "first": f1})
     return {"typ": "probe", "rule": name, "opt": opt, "text": text, "hb": slim(hb), "ha": slim(ha), "root": objs.of(tree),
-            "a1": a1, "a2": a2, "found": found, "rindex": rindex, "first": first, "exc": exc}
+            "a1": a1, "a2": a2, "found": found, "rindex": rindex, "first": first, "exc": exc, "subs": subs}
 
 
 def print_event(text):
@@ -216,7 +261,7 @@ def print_event(text):
         ev["printed"] = str(t0)
         ev["pc"] = [ord(c) for c in ev["printed"]]
         try:
-            ev["re"] = project.term(parse(ev["printed"]))
+            ev["re"] = project.term(reparse(ev["printed"]))
             ev["reparse"] = "ok"
         except BaseException as e:  # noqa
             ev["reparse"] = type(e).__name__
@@ -439,6 +484,7 @@ FORMS = ["5 * (8h * t)", "(7 * 10y^3) * x", "(7q * 10y^3) * x", "792z^4 * 490f *
          "4 + -2x^3", "y + -3x^2", "2x + -0.5x^2", "(x + 1) + -4y^3", "-(3 + 2)", "-(4 * 2)", "-(2 - 5)", "-(6 / 4)", "-(2 ^ 3)", "x + -(3 * 0.5)", "-(0 + 0)",
          "x^0 * x^2", "x^(2 - 2) * x^3", "x^0 + x^0", "0x + 0x", "1x * 1x", "-x * -x", "-x + -x", "x^-1 * x", "2x^-2 * 3x^2"]
 # trees only a rewrite can produce (the grammar has no literal for them): a folded division by zero leaves a nan / inf coefficient
+HUGE_FORMS = ["10^4400 * 2 + x", "10^400 * 2 + x", "7^365 + 1", "2^1030 * x + 2^1030 * x", "(10^200)^2 * y", "3x^(10^30) * 2x", "10^400 + 10^400 = x"]
 UNDEF_FORMS = ["(4 / 0)x + 2x", "(0 / 0)x + 3x", "2x + (4 / 0)x", "(4 / 0) + 2", "(4 / 0)x^2 + 2x^2", "(4 / 0)x * 2x", "(1 / 0) * 3", "x * (4 / 0) * x", "(4 / 0)x = 2",
                "(4 / 0)x + 2 = 3", "-(4 / 0) + x", "(4 / 0)x - 2x", "(4 / 0)^2 + 1", "(2 - 2) * x + 2x", "(0 * 3)x + 2x", "0x + 0x", "(5 - 5)x^2 + (1 - 1)x^2"]
 # trees in which a subterm and its copy carry the same ids (built with clone(); several rules build such trees themselves)
